@@ -435,6 +435,20 @@ class FuncFacts:
         if is_self_attr(e):
             var = f"self.{e.attr}"  # type: ignore
             defs = self.rd.reaching(var, at)
+            if not defs and self._follow and self.fn.cls is not None and FuncFacts._follow_depth < self.FOLLOW_DEPTH:
+                # a (cached) property of the class: the value is what the property's body returns
+                m = self.fn.cls.resolve(e.attr)
+                if m is not None and any((dotted(d) or "").split(".")[-1] in ("property", "cached_property") for d in m.node.decorator_list):
+                    FuncFacts._follow_depth += 1
+                    try:
+                        mf = FuncFacts.of(m)
+                        out: list[Path] = []
+                        for r in [n for n in walk_no_nested(m.node) if isinstance(n, ast.Return) and n.value is not None]:
+                            out += [Path(p.atom, p.ops + (Op("via", var, e),), at) for p in mf.paths(r.value, spine_only=spine, follow=True)]
+                    finally:
+                        FuncFacts._follow_depth -= 1
+                    if out:
+                        return out
             if not defs:
                 return [Path(Atom("selfattr", var, e), (), at)]
             return self._from_defs(var, defs, at, stack, env, spine, e)
